@@ -68,9 +68,10 @@ TrFdwra ==
            \* property-level outcomes of azimuth a that end in the recorded masks
            outs(a) == { o \in Fdwra1("P", a, p0, r, Tup2(Ev.n), Ev.mi, w0[a], v0[a]) :
                           o.st = "ok" /\ o.vw = Ev.t.vw[a] /\ o.vp = Ev.t.vp[a] }
-       IN /\ noop \/ PeaksAllowed(p0, r)
-          /\ \A a \in Az : \E o \in outs(a) : o.it <= Ev.it      \* returned value = max over the azimuths
-          /\ \E a \in Az : \E o \in outs(a) : o.it = Ev.it
+       IN \* (= TRUE: evaluated as plain state-level expressions; as actions the nested quantifiers overflow TLC's stack)
+          /\ (noop \/ PeaksAllowed(p0, r)) = TRUE
+          /\ (\A a \in Az : \E o \in outs(a) : o.it <= Ev.it) = TRUE      \* returned value = max over the azimuths
+          /\ (\E a \in Az : \E o \in outs(a) : o.it = Ev.it) = TRUE
           /\ rng' = r /\ pk' = p0 /\ kwe' = kwe
           /\ vw' = Ev.t.vw /\ vp' = Ev.t.vp
           /\ mrng' \in {r, mrng}
@@ -87,8 +88,8 @@ TrFdwraUndef ==
            p0 == IF noop THEN pk ELSE Ev.t.pk
            w0 == IF noop THEN vw ELSE MaskVW(p0)
            v0 == IF noop THEN vp ELSE MaskVP(p0)
-       IN /\ noop \/ PeaksAllowed(p0, r)
-          /\ \E a \in Az : \E o \in Fdwra1("P", a, p0, r, Tup2(Ev.n), Ev.mi, w0[a], v0[a]) : o.st = "undef"
+       IN /\ (noop \/ PeaksAllowed(p0, r)) = TRUE
+          /\ (\E a \in Az : \E o \in Fdwra1("P", a, p0, r, Tup2(Ev.n), Ev.mi, w0[a], v0[a]) : o.st = "undef") = TRUE
     /\ UNCHANGED svars
     /\ last' = [op |-> "FdwraUndef"]
 
